@@ -103,6 +103,23 @@ def rule_once(ctx) -> None:
             ok_inc = True
     ctx.check(bool(sets) and ok_inc, "C04.ONCE", f"{b.qual}/increments", b.loc(),
               "the bump stores int(current)+1 under version_etag", "the bump does not store current+1")
+    # "advances the state version by exactly one" for every version: the old value reaches the + 1 as an exact integer.  A
+    # detour through float (int(float(v)), round(float(v))) drops the low bits of a version >= 2**53 before the increment: the
+    # version then stays put or jumps.  Followed into the module helpers the left operand is computed by.
+    lossy = None
+    for x in walk_no_defs(b.node):
+        if isinstance(x, ast.BinOp) and isinstance(x.op, ast.Add) and isinstance(x.right, ast.Constant) and x.right.value == 1:
+            scope = list(ast.walk(x.left))
+            for y in list(scope):
+                if isinstance(y, ast.Call):
+                    r = ctx.prog.callee(b, y)
+                    if r and r[1] in ctx.prog.funcs and ctx.prog.funcs[r[1]].module.name == b.module.name:
+                        scope += list(ast.walk(ctx.prog.funcs[r[1]].node))
+            lossy = lossy or next((y for y in scope if isinstance(y, ast.Call) and dotted(y.func) in ("float", "round", "math.floor", "math.ceil", "math.trunc") and y.args), None)
+            lossy = lossy or next((y for y in scope if isinstance(y, ast.BinOp) and isinstance(y.op, ast.Div)), None)
+    ctx.check(lossy is None, "C04.ONCE", f"{b.qual}/increment-is-exact", b.loc(lossy) if lossy is not None else b.loc(), "the old version reaches the increment as an exact integer (int(), no float detour)",
+              f"`{src(lossy)[:40] if lossy is not None else ''}` takes the old version through a float before the + 1: for a version at or above 2**53 (a time_ns seed, a 64-bit revision id) the low bits "
+              "are dropped, so a committed turn leaves the version where it was or moves it by something other than one")
 
 
 def rule_batch(ctx) -> None:
